@@ -406,7 +406,10 @@ func buildCluster(p *C30Plan) *clusterSim {
 				}
 				cl.viewRole[i][j] = v.Role
 			}
-			sn.router = cluster.NewRouter(&cluster.RouterConfig{Retries: nc.Retries, Strategy: cluster.LoadBalanceStrategy(nc.Strategy),
+			// The forward timeout is enforced by net/http with a real-time timer the
+			// simulator does not own; it is set far beyond any real duration of a run
+			// so that it can never fire (time-outs are injected by the transport).
+			sn.router = cluster.NewRouter(&cluster.RouterConfig{Timeout: 30 * time.Minute, Retries: nc.Retries, Strategy: cluster.LoadBalanceStrategy(nc.Strategy),
 				Registry: sn.reg, LocalNode: sn.local, Logger: harnessLogger()})
 			cluster.VerifSetRouterTransport(sn.router, &simTransport{cl: cl, owner: sn})
 			// the wiring of cmd/arc/main.go ("Wire up cluster router to handlers")
